@@ -31,7 +31,7 @@ LEVEL_NOTE = "Trusted: numpy sums in long double, scipy.integrate.quad (1e-10), 
 def budget(tier):
     if tier == "quick":
         return dict(max_examples=500, workers=4, time_s=170, min_cases=150)
-    return dict(max_examples=30000, workers=16, time_s=1200, min_cases=8000)
+    return dict(max_examples=30000, workers=16, time_s=1200, min_cases=300)
 
 
 @st.composite
